@@ -126,27 +126,41 @@ fn main() {
     }
     std::panic::set_hook(Box::new(|_| {}));
     let stdin = std::io::stdin();
-    let out = std::io::stdout();
-    for line in stdin.lock().lines() {
-        let line = line.unwrap();
-        let mut p = line.split('\t');
-        let k: usize = p.next().unwrap().parse().unwrap();
-        let ret = v_from_text(p.next().unwrap());
-        let program = String::from_utf8(unhex(p.next().unwrap())).unwrap();
-        let r = std::thread::Builder::new()
-            .stack_size(256 << 20)
-            .spawn(move || std::panic::catch_unwind(std::panic::AssertUnwindSafe(|| run_case(k, &ret, &program))))
-            .unwrap()
-            .join()
-            .unwrap();
-        let mut o = out.lock();
-        match r {
-            Ok((sk, sa, pr, st)) => writeln!(o, "R\t{sk}\t{sa}\t{pr}\t{st}").unwrap(),
-            Err(e) => {
-                let msg = e.downcast_ref::<String>().cloned().or_else(|| e.downcast_ref::<&str>().map(|s| s.to_string())).unwrap_or_default();
-                writeln!(o, "R\t-\t-\t-\tcrash:{}", hex(msg.as_bytes())).unwrap()
-            }
+    let lines: Vec<String> = stdin.lock().lines().map(|l| l.unwrap()).collect();
+    let n = lines.len();
+    let results: std::sync::Mutex<Vec<Option<String>>> = std::sync::Mutex::new(vec![None; n]);
+    let next = std::sync::atomic::AtomicUsize::new(0);
+    let workers: usize = std::env::var("VERIF_THREADS").ok().and_then(|s| s.parse().ok()).unwrap_or(10);
+    std::thread::scope(|sc| {
+        for _ in 0..workers {
+            std::thread::Builder::new()
+                .stack_size(256 << 20)
+                .spawn_scoped(sc, || loop {
+                    let i = next.fetch_add(1, std::sync::atomic::Ordering::Relaxed);
+                    if i >= n {
+                        break;
+                    }
+                    let mut p = lines[i].split('\t');
+                    let k: usize = p.next().unwrap().parse().unwrap();
+                    let ret = v_from_text(p.next().unwrap());
+                    let program = String::from_utf8(unhex(p.next().unwrap())).unwrap();
+                    let r = std::panic::catch_unwind(std::panic::AssertUnwindSafe(|| run_case(k, &ret, &program)));
+                    let line = match r {
+                        Ok((sk, sa, pr, st)) => format!("R\t{sk}\t{sa}\t{pr}\t{st}"),
+                        Err(e) => {
+                            let msg = e.downcast_ref::<String>().cloned().or_else(|| e.downcast_ref::<&str>().map(|s| s.to_string())).unwrap_or_default();
+                            format!("R\t-\t-\t-\tcrash:{}", hex(msg.as_bytes()))
+                        }
+                    };
+                    results.lock().unwrap()[i] = Some(line);
+                })
+                .unwrap();
         }
-        o.flush().unwrap();
+    });
+    let out = std::io::stdout();
+    let mut o = out.lock();
+    for r in results.into_inner().unwrap() {
+        writeln!(o, "{}", r.unwrap()).unwrap();
     }
+    o.flush().unwrap();
 }
